@@ -1,6 +1,6 @@
 """C03 — no beacon without a threshold of valid partials from distinct members."""
 import glob, json, os
-from .. import core, agg
+from .. import core, agg, netreshare
 from . import C01 as base
 
 ID = "C03"
@@ -13,7 +13,8 @@ THEOREMS = ["Drand.Beacon." + t for t in [
     "append_inv", "flush_inv", "step_inv3", "run_inv3", "toy3_recoverSpec",
     "c03_distinct", "c03_duplicate_ignored", "c03_malformed_ignored",
     "tie_processPartial", "tie_aggregator_partial", "tie_aggregator_init", "tie_window", "tie_processPartial_guards",
-    "tie_aggregator_guards", "tie_live_group_switch"]]
+    "tie_aggregator_guards", "tie_live_group_switch"]] + \
+    ["Drand.Net.Reshare." + t for t in ['tie_group_node_lookup', 'c03_member_lookup_exact', 'c03_hole_is_not_member', 'c03_admitted_is_member', 'c03_nonmember_index_never_counts', 'c07_old_epoch_never_counts', 'c07_held_members_run', 'c07_beacon_needs_new_members', 'tie_aggregator_threshold_in_loop']]
 TRUSTED = ["Lean 4 kernel; axioms per theorem under coverage.axioms",
            "cryptography is an oracle record; explicit hypotheses: RecoverSpec (if kyber's Recover returns a signature then at least t of the supplied partials verify "
            "under the supplied polynomial at pairwise distinct indices), SignedOnly + CollisionFreeOn (only for the wrong-round / wrong-previous-signature lemmas)",
@@ -175,6 +176,10 @@ def explore(ctx, res):
             res.report("cache|len-not-distinct-count", {"engine": "cache", "kind": "impl-violates", "ops": c["ops"], "observed": outs, "oracle": r[0]})
         res.cov.update(evaluations=len(c["ops"]), rule="replay of one cache-engine sequence")
         return
+    if ctx.get("replay") and json.load(open(ctx["replay"])).get("engine") == "net":
+        cov, _ = netreshare.replay_part(ctx, res, json.load(open(ctx["replay"])))
+        res.cov.update(evaluations=sum(cov["ops"].values()), rule="replay of one script of engine net", distribution={"net_reshare": cov})
+        return
     if ctx.get("replay"):
         c = json.load(open(ctx["replay"]))
         seqs = [agg.Seq(c["ops"], {})]
@@ -213,6 +218,13 @@ def explore(ctx, res):
         res.cov["traces_validated_against_impl"] += v_cache
         res.cov["distribution"]["cache_engine"] = {"op_lines": n_cache, "sequences_validated": v_cache}
         res.cov["rule"] += "; plus the pure `cache` engine: random append/len/flush sequences on the real partialCache (duplicates, malformed lengths), Len() compared with the count of distinct appended indices and with the cache model"
+    if not ctx.get("replay"):
+        # groups with holes in the share indices, and old-share partials after a resharing, on networks of real Handlers
+        ncov, nres = netreshare.explore_part(ID, ctx, res)
+        res.cov["evaluations"] += sum(ncov["ops"].values())
+        res.cov["distribution"]["net_reshare"] = ncov
+        res.cov["rule"] += ("; plus engine `net` (vlib/netreshare.py): a group with a hole in its share indices offered a VALID partial for the missing index, leavers that keep "
+                            "signing with old shares after a resharing, old-share partials of still-members: none may be let in or move the head")
     res.cov["distribution"]["threshold_scenarios"] = {"beacon_created_with_threshold_of_intended_contributors": tot[0],
                                                       "beacon_created_because_a_forged_packet_was_a_valid_contribution": tot[1],
                                                       "no_beacon_below_threshold": tot[2]}
